@@ -3,8 +3,9 @@
    The model (model/S3Multipart.v) is faithful to the code as it is now — after the repairs of
    completeMultipartUpload (numeric part order, explicit listing limit), doDeleteEmptyDirectories,
    CopyObject (source status) and CopyObjectPart (upload must exist) — INCLUDING its remaining
-   defects; every full statement that the code still violates comes as
-   _partial (under a decidable trigger) + _refuted. *)
+   defects (known findings 0..6); every full statement that the code still violates comes as
+   _partial (under a decidable trigger) + _refuted.  The triggers of the history theorem are raised
+   per request by the model run (the flag list of [run]), never history-wide. *)
 From Coq Require Import List NArith ZArith Bool String.
 From SW Require Import model.HttpRange model.S3Multipart
   proof.S3MultipartNames proof.S3MultipartParts proof.S3MultipartNS proof.S3MultipartProofs.
@@ -160,12 +161,18 @@ Print Assumptions c28_delete_exact_batch.
 
 (* C28 at full strength over histories: from the empty bucket, for every configuration with
    positive chunk size, every history of PUT / streaming PUT / copy / GET (whole and ranged) /
-   DELETE / batch delete / multipart create, part upload, part copy, complete, abort, list
-   requests inside the domain (non-empty keys, part numbers in 1..10000 or above the gateway's
-   own maximum) on which NO known-finding trigger (0..4) fires: every GET and ListParts answer is
-   the one of the flat key -> bytes specification (a completed upload = its parts in ascending
-   part-number order), and at the end the file entries under the bucket are exactly the
-   specification's objects *)
+   DELETE / batch delete / multipart create, part upload, part copy, complete (with ANY part list in
+   the request body), abort, list requests with non-empty keys and ANY part numbers, on which NO
+   known-finding trigger (0..6) fires — the triggers are raised per request by the model run, so
+   the hypothesis [run .. = (rs, [], fin)] says that no single request of the history is inside a
+   trigger set: every answer meets the flat key -> bytes specification — GET and ListParts payloads,
+   and the status class of every write (EOk: acknowledged; EFail: refused, e.g. a tampered chunk
+   signature, a missing copy source, a dead upload, a part number above the gateway's maximum) —
+   where a completed upload is the concatenation of the parts its request lists (which must be
+   uploaded parts in ascending part-number order); and at the end the file entries under the
+   bucket are exactly the specification's objects.
+   This is the _partial statement of findings 5 (c28_part_range_refuted) and 6
+   (c28_complete_part_list_refuted) as well as of 0..4. *)
 Theorem c28_history_refines_spec : forall c ops rs fin es sfin,
   0 < c_chunk c -> forallb op_in_domain ops = true ->
   run c init_state ops = (rs, [], fin) -> srun sinit ops = (es, sfin) ->
@@ -174,6 +181,43 @@ Theorem c28_history_refines_spec : forall c ops rs fin es sfin,
 Proof. exact history_refines_spec. Qed.
 Print Assumptions c28_history_refines_spec.
 
+(* finding 6: the part list of CompleteMultipartUpload is never read *)
+Theorem c28_complete_part_list_refuted :
+  let kf := ["f"%string] in
+  let ops := [MpCreate kf; MpPut 0 1 [1; 1]; MpPut 0 2 [2]; MpPut 0 3 [3; 3]; MpComplete 0 [1; 3]; Get kf None] in
+  forallb op_in_domain ops = true /\
+  run cfg_plain init_state ops =
+    ([ROk; ROk; ROk; ROk; ROk; RData [1; 1; 2; 3; 3]], [6], snd (run cfg_plain init_state ops)) /\
+  fst (srun sinit ops) = [EOk; EOk; EOk; EOk; EOk; EData [1; 1; 3; 3]] /\
+  all2 meets (fst (srun sinit ops)) (fst (fst (run cfg_plain init_state ops))) = false.
+Proof. exact complete_list_refuted. Qed.
+Print Assumptions c28_complete_part_list_refuted.
+
+(* what the specification's completion selects: exactly the listed parts' bodies, in request order;
+   and the list that raises no trigger 6 (all uploaded numbers, ascending) selects every part *)
+Theorem c28_complete_selects_listed : forall ns ps bs, pick ns ps = Some bs ->
+  map Some bs = map (fun n => pget n ps) ns.
+Proof. exact pick_listed. Qed.
+Print Assumptions c28_complete_selects_listed.
+Theorem c28_complete_full_list : forall h,
+  pick (map fst (parts_of h)) (parts_of h) = Some (map snd (parts_of h)).
+Proof. exact pick_all. Qed.
+Print Assumptions c28_complete_full_list.
+
+(* finding 5: part numbers 0 and 10001..100000 are accepted *)
+Theorem c28_part_range_refuted :
+  let kf := ["f"%string] in
+  let ops := [MpCreate kf; MpPut 0 0 [7]; MpPut 0 1 [1]; MpPut 0 10001 [9]; MpList 0;
+              MpComplete 0 [0; 1; 10001]; Get kf None] in
+  forallb op_in_domain ops = true /\
+  run cfg_plain init_state ops =
+    ([ROk; ROk; ROk; ROk; RParts [(1, 1); (10001, 1)]; ROk; RData [7; 1; 9]], [5; 5],
+     snd (run cfg_plain init_state ops)) /\
+  fst (srun sinit ops) = [EOk; EFail; EOk; EFail; EParts [(1, 1)]; EFail; ENotFound] /\
+  all2 meets (fst (srun sinit ops)) (fst (fst (run cfg_plain init_state ops))) = false.
+Proof. exact part_range_refuted. Qed.
+Print Assumptions c28_part_range_refuted.
+
 (* non-vacuity *)
 Example c28_multipart_example :
   let h := [(9999, [9; 9; 9; 9; 9; 9]); (2, [7]); (1000, [5; 5; 5; 5; 5]); (2, [2; 2]); (10000, [4]); (1, [])] in
@@ -181,6 +225,7 @@ Example c28_multipart_example :
   file_bytes (completed_file (dir_of cfg_plain h)) = [2; 2; 5; 5; 5; 5; 5; 9; 9; 9; 9; 9; 9; 4] /\
   map (fun e => List.length (f_chunks (snd e))) (dir_of cfg_plain h) = [0; 1; 2; 1; 2]%nat.
 Proof. exact complete_concat_example. Qed.
+Print Assumptions c28_multipart_example.
 
 (* the repaired order defect as a concrete fact: the names list 10000 before 1001, the object does not *)
 Example c28_multipart_10000_example :
@@ -188,12 +233,13 @@ Example c28_multipart_10000_example :
   map (fun e => part_number_of (fst e)) (dir_of cfg_plain h) = [2; 10000; 1001] /\
   file_bytes (completed_file (dir_of cfg_plain h)) = [3; 1; 1; 2; 2; 2].
 Proof. exact complete_concat_10000. Qed.
+Print Assumptions c28_multipart_10000_example.
 
 Example c28_history_example :
   let c := {| c_inline := 0; c_chunk := 4 |} in
   let ka := ["a"%string; "b"%string] in let kf := ["f"%string] in let kg := ["g"%string; "h"%string] in
   let ops := [Put ka [1; 2; 3; 4; 5; 6]; Copy ka kg; MpCreate kf; MpPut 0 10000 [7; 7; 7; 7; 7];
-              MpPut 0 2 [8]; MpPut 0 2 [9; 9]; MpCopy 0 1001 ka (Some (1, 3)); MpComplete 0;
+              MpPut 0 2 [8]; MpPut 0 2 [9; 9]; MpCopy 0 1001 ka (Some (1, 3)); MpComplete 0 [2; 1001; 10000];
               Get kf None; Get kf (Some (RClosed 1 6)); Del ka; BatchDel [kg; ka]; Get kg None] in
   forallb op_in_domain ops = true /\
   snd (fst (run c init_state ops)) = [] /\
@@ -202,3 +248,4 @@ Example c28_history_example :
      RData [9; 9; 2; 3; 4; 7; 7; 7; 7; 7]; RData [9; 2; 3; 4; 7; 7]; ROk; ROk; RNotFound] /\
   objects (st_store (snd (run c init_state ops))) = [(kf, [9; 9; 2; 3; 4; 7; 7; 7; 7; 7])].
 Proof. exact history_example. Qed.
+Print Assumptions c28_history_example.
